@@ -170,6 +170,9 @@ pub fn generate(out: &mut Out, seed: u64, thorough: bool) {
     }
     tables(out);
     generate_views(out, &mut rng, thorough);
+    if thorough && seed % 4 == 1 {
+        sweep16(out);
+    }
     // pixel types without alpha are rejected; size mismatches are rejected
     for &pt in ALL_TYPES.iter() {
         let md = MulDiv::new();
@@ -276,25 +279,44 @@ fn comps_from_px<P: InnerPixel>(kind: Kind, px: &[P]) -> Vec<u64> {
 }
 
 fn rand_alpha_comps(rng: &mut Rng, kind: Kind, n: usize, pixels: usize) -> Vec<u64> {
+    // alpha comes in runs (1..12 pixels of the same alpha: fully opaque / transparent groups fill whole SIMD lanes)
     let mut v = Vec::with_capacity(pixels * n);
+    let mut run_left = 0u64;
+    let mut run_alpha = 0u64;
     for _ in 0..pixels {
-        for c in 0..n {
-            let x = match kind {
-                Kind::F32 => f32_pool(rng),
+        if run_left == 0 {
+            run_left = if rng.chance(1, 2) { 1 } else { rng.range(2, 12) };
+            run_alpha = match kind {
+                Kind::F32 => match rng.below(4) {
+                    0 => 1.0f32.to_bits() as u64,
+                    1 => 0,
+                    _ => f32_pool(rng),
+                },
                 _ => {
                     let m = kind.max();
-                    if c == n - 1 {
-                        match rng.below(6) {
-                            0 => 0,
-                            1 => m,
-                            2 => 1,
-                            3 => m - 1,
-                            _ => rng.below(m + 1),
+                    match rng.below(6) {
+                        0 => 0,
+                        1 | 2 => m,
+                        3 => *rng.pick(&[1, m - 1]),
+                        _ => rng.below(m + 1),
+                    }
+                }
+            };
+        }
+        run_left -= 1;
+        for c in 0..n {
+            let x = if c == n - 1 {
+                run_alpha
+            } else {
+                match kind {
+                    Kind::F32 => f32_pool(rng),
+                    _ => {
+                        let m = kind.max();
+                        if rng.chance(1, 6) {
+                            m
+                        } else {
+                            rng.below(m + 1)
                         }
-                    } else if rng.chance(1, 6) {
-                        m
-                    } else {
-                        rng.below(m + 1)
                     }
                 }
             };
@@ -396,4 +418,89 @@ fn view_case<P: fir::PixelTrait>(
         }
     });
     r.map(|x| x.map(|_| comps_from_px(kind, &dpx)))
+}
+
+/// thorough tier: ALL 2^32 (colour, alpha) pairs of the 16-bit formats through every back-end, multiply and divide,
+/// judged in Rust by the same formulas as Fir.Spec.Alpha (mulExact / divFaithful); only failures are reported.
+pub fn sweep16(out: &mut Out) {
+    use std::sync::Mutex;
+    let failures: Mutex<Vec<String>> = Mutex::new(Vec::new());
+    let threads = std::thread::available_parallelism().map(|n| n.get()).unwrap_or(4).min(16) as u32;
+    for &pt in [PixelType::U16x2, PixelType::U16x4].iter() {
+        let n = pt_comps(pt);
+        for is_mul in [true, false] {
+            for (ext_name, ext) in exts() {
+                std::thread::scope(|sc| {
+                    for t in 0..threads {
+                        let failures = &failures;
+                        sc.spawn(move || {
+                            let mut md = MulDiv::new();
+                            unsafe { md.set_cpu_extensions(ext) };
+                            let mut img = Image::new(65536, 1, pt);
+                            let mut a = t;
+                            while a < 65536 {
+                                {
+                                    let buf = img.buffer_mut();
+                                    for c in 0..65536usize {
+                                        let px = &mut buf[c * n * 2..(c + 1) * n * 2];
+                                        px[0..2].copy_from_slice(&(c as u16).to_le_bytes());
+                                        if n == 4 {
+                                            px[2..4].copy_from_slice(&(((c * 31 + 7) % 65536) as u16).to_le_bytes());
+                                            px[4..6].copy_from_slice(&((65535 - c) as u16).to_le_bytes());
+                                        }
+                                        px[(n - 1) * 2..n * 2].copy_from_slice(&(a as u16).to_le_bytes());
+                                    }
+                                }
+                                let r = if is_mul { md.multiply_alpha_inplace(&mut img) } else { md.divide_alpha_inplace(&mut img) };
+                                let mut bad: Option<String> = None;
+                                if r.is_err() {
+                                    bad = Some(format!("error {:?}", r));
+                                } else {
+                                    let buf = img.buffer();
+                                    let m = 65535u64;
+                                    let al = a as u64;
+                                    'px: for c in 0..65536usize {
+                                        let get = |j: usize| u16::from_le_bytes([buf[(c * n + j) * 2], buf[(c * n + j) * 2 + 1]]) as u64;
+                                        if get(n - 1) != al {
+                                            bad = Some(format!("alpha changed: c={} a={} got={}", c, a, get(n - 1)));
+                                            break 'px;
+                                        }
+                                        for j in 0..n - 1 {
+                                            let cv = match (n, j) {
+                                                (4, 1) => ((c * 31 + 7) % 65536) as u64,
+                                                (4, 2) => (65535 - c) as u64,
+                                                _ => c as u64,
+                                            };
+                                            let g = get(j);
+                                            let ok = if is_mul {
+                                                g == (2 * cv * al + m) / (2 * m)
+                                            } else if al == 0 {
+                                                g == 0
+                                            } else {
+                                                g == (cv * m / al).min(m) || g == ((cv * m + al - 1) / al).min(m)
+                                            };
+                                            if !ok {
+                                                bad = Some(format!("c={} a={} got={}", cv, a, g));
+                                                break 'px;
+                                            }
+                                        }
+                                    }
+                                }
+                                if let Some(b) = bad {
+                                    let mut f = failures.lock().unwrap();
+                                    if f.len() < 8 {
+                                        f.push(format!("16-bit sweep {} {} ext={}: {}", pt_name(pt), if is_mul { "multiply_alpha_inplace" } else { "divide_alpha_inplace" }, ext_name, b));
+                                    }
+                                }
+                                a += threads;
+                            }
+                        });
+                    }
+                });
+                out.count_n(&format!("sweep16:{}:{}:{}:pairs", pt_name(pt), if is_mul { "mul" } else { "div" }, ext_name), 1u64 << 32);
+            }
+        }
+    }
+    out.notes.push("thorough: all 2^32 (colour, alpha) pairs of U16x2 / U16x4 through multiply_alpha_inplace and divide_alpha_inplace on every back-end, judged by mulExact / divFaithful evaluated in Rust".to_string());
+    out.impl_failures.extend(failures.into_inner().unwrap());
 }
